@@ -979,6 +979,8 @@ class units_context_manager:
     
     def __init__(self,utype="energy"):
         self.manager = Manager()
+        # units to return to, one item per entry of this object
+        self._units_backups = []
         if utype in self.manager.allowed_utypes:
             self.utype = utype
         else:
@@ -1008,11 +1010,13 @@ class energy_units(units_context_manager):
     def __enter__(self):
         # save current energy units
         self.units_backup = self.manager.get_current_units("energy")
+        self._units_backups.append(self.units_backup)
         self.manager.set_current_units(self.utype,self.units)
         self.manager._in_energy_units_context = True
         self.manager._in_eu_count += 1
         
     def __exit__(self,ext_ty,exc_val,tb):
+        self.units_backup = self._units_backups.pop()
         self.manager.set_current_units("energy",self.units_backup)
         self.manager._in_eu_count -= 1
         if self.manager._in_eu_count == 0:
@@ -1045,9 +1049,11 @@ class length_units(units_context_manager):
     def __enter__(self):
         # save current energy units
         self.units_backup = self.manager.get_current_units("length")
+        self._units_backups.append(self.units_backup)
         self.manager.set_current_units(self.utype,self.units)
         
     def __exit__(self,ext_ty,exc_val,tb):
+        self.units_backup = self._units_backups.pop()
         self.manager.set_current_units("length",self.units_backup)
 
 
